@@ -82,7 +82,7 @@ def run(tier):
         return rep.finish()
     # probes of the open findings run once their keys are registered (or on request)
     want = [name for name, *_ in drv.PROBES
-            if os.environ.get('VERIF_E01_PROBES') == '1' or any(k.startswith('e01:probe:' + name) for k in rep.known)]
+            if os.environ.get('VERIF_E01_PROBES', '1') == '1' or any(k.startswith('e01:probe:' + name) for k in rep.known)]
     if want:
         drv.prepare_cwd(os.path.join(wd, 'cwd-probe'))
         cases += drv.probe_cases(wd, want)
